@@ -93,10 +93,22 @@ def doc_traits(doc):
         k = tkind(n)
         kw = n.get('kw') or {}
         inherited_prio = any((a.get('kw') or {}).get('prio') is not None for a in anc)
-        if k == 'clear': tr.add('clear')
-        if k == 'path' and not n['t'].get('f'): tr.add('path-noref')
-        if k == 'fstr' or ('s' in n and not n.get('t') and isinstance(sc_py(n['s'].get('l')), str) and str(n['s'].get('l')).startswith("f'")): tr.add('fstr')
+        is_fstr = k == 'fstr' or ('s' in n and not n.get('t') and isinstance(sc_py(n['s'].get('l')), str) and str(n['s'].get('l')).startswith("f'"))
         if k in ('append', 'prev', 'import', 'include') and (inherited_prio or any(v not in (None, []) for v in kw.values())): tr.add('nomdform')
+        if is_fstr and inherited_prio: tr.add('nomdform')     # !fstr has no :metadata form either (since the repair of D17h)
+        # D17k: an untagged container X whose only keyword is one flag (written as a simple tag, NOT pushed on the dumper's stack)
+        # below an ancestor A that pushed the opposite value, above a node with that flag explicitly equal to A's value
+        for phi in ('del', 'new', 'safe'):
+            v = kw.get(phi)
+            if v is None:
+                continue
+            for j, x in enumerate(anc):
+                xkw = {a: b for a, b in (x.get('kw') or {}).items() if b not in (None, [])}
+                if tkind(x) in (None, 'plain') and 's' not in x and xkw == {phi: (not v)}:
+                    for a in anc[:j]:
+                        akw = {p: q for p, q in (a.get('kw') or {}).items() if q not in (None, [])}
+                        if akw.get(phi) == v and (len(akw) >= 2 or tkind(a) not in (None, 'plain')):
+                            tr.add('shortcut-stack')
         if 's' in n:
             s = n['s']
             txt = s.get('x') if 'x' in s else (sc_py(s.get('l')) if 'l' in s else None)
@@ -108,25 +120,23 @@ def doc_traits(doc):
             tr.add('default-flag')
         if kw.get('safe') is not None:
             if kw['safe'] == src_safe: tr.add('safe-equals-source-default')
-            if kw['safe'] is True and not src_safe: tr.add('safe-true')
     walk(doc['raw'], f)
     return tr
 
-KEY_OF_CLASS = {   # failure class -> (finding key, trait that must be present in the (shrunk) document)
-    'dump-clear-crash': 'clear',
-    'dump-path-noref': 'path-noref',
+KEY_OF_CLASS = {   # failure class (= finding key) -> trait that must be present in the (shrunk) document
     'dump-multiline-eval': 'escaped-string',
     'dump-safe-elided': 'safe-equals-source-default',
-    'dump-safe-tag': 'safe-true',
     'dump-explicit-default-delete': 'explicit-default-delete',
     'dump-default-under-parent': 'default-flag',
-    'dump-fstr-as-eval': 'fstr',
     'dump-kind-without-metadata-form': 'nomdform',
+    'dump-shortcut-tag-not-on-stack': 'shortcut-stack',
 }
+# D17c (!clear), D17d (!path without reference point), D17h (f-string dumped as !eval) and D17j (!safe) are repaired in /repo:
+# their failure classes (dump-clear-crash, dump-path-noref, dump-fstr-as-eval, dump-safe-tag) are ordinary violations again.
 
-ID_OF_CLASS = {'dump-explicit-default-delete': 'D17a', 'dump-clear-crash': 'D17c', 'dump-path-noref': 'D17d', 'dump-multiline-eval': 'D17e',
-               'dump-safe-elided': 'D17f', 'dump-default-under-parent': 'D17g', 'dump-fstr-as-eval': 'D17h',
-               'dump-kind-without-metadata-form': 'D17i', 'dump-safe-tag': 'D17j'}
+ID_OF_CLASS = {'dump-explicit-default-delete': 'D17a', 'dump-multiline-eval': 'D17e', 'dump-safe-elided': 'D17f',
+               'dump-default-under-parent': 'D17g', 'dump-kind-without-metadata-form': 'D17i',
+               'dump-shortcut-tag-not-on-stack': 'D17k'}
 
 def first_field(d):
     """the attribute name at which a first_diff text points"""
@@ -144,7 +154,7 @@ class C18(Prop):
             '(KEY_OF_CLASS traits), the rest is unrestricted. non-trivial = the document has a tag; distinct by SHA-1')
     ASSUMPTIONS = ['YAML text emission / scanning is PyYAML; the model starts at the representation tree',
                    'source_file and idx of re-parsed nodes are not compared',
-                   'failures inside the classes D17a,c,d,e,f (+ D17g-j found here) are attributed to the recorded findings only when the '
+                   'failures inside the classes D17a, e, f, g, i, k are attributed to the recorded findings only when the '
                    'shrunk document still has the structural trait of that class']
 
     def corpus(self):
@@ -155,20 +165,26 @@ class C18(Prop):
             D(M({'a': M({'b': M({'c': S(1)}), 'd': S(2, kw={'prio': -1})}, kw={'prio': 1})}), M({'a': M({'b': M({'c': S(2)})})})),       # D03 witness
             D(M({'a': S(None, kw={'prio': 1}), 'b': Sempty(kw={'del': True})}), M({'a': S(3), 'b': S(4)})),                               # D17b (repaired)
             W(D(M({'a': Q([], kw={'del': True})}), M({'a': Q([S(1)])}))),   # D17a  a: !del []
-            W(D(M({'a': Sempty('clear')}), M({'a': M({'x': S(1)})}))),   # D17c
-            W(D(M({'a': Q([S('x')], tag={'k': 'path', 'f': ''})}))),   # D17d
+            D(M({'a': Sempty('clear')}), M({'a': M({'x': S(1)})})),   # D17c (repaired: must pass)
+            D(M({'a': Sempty('clear', kw={'prio': 1, 'md': [['m', 1]]}), 'b': M({'c': Sempty('clear')}, kw={'prio': -1})}), M({'a': M({'x': S(1)}), 'b': M({'c': Q([S(2)])})})),
+            D(M({'a': Q([S('x')], tag={'k': 'path', 'f': ''})})),   # D17d (repaired: must pass)
+            D(M({'a': Q([S('x'), S('y', kw={'prio': -1})], tag={'k': 'path', 'f': ''}), 'b': S('z', tag={'k': 'path', 'f': ''})}, kw={'prio': 1})),
+            dict(D(M({'a': S(1)})), doc={'raw': M({'p': Q([S('d'), S('f.txt')], tag={'k': 'path', 'f': ''})}), 'src': '/cfg/sub/main.yaml'}),
             W(D(M({'a': Stext('q = 1\nT(q)', 'eval')}))),   # D17e
             W(dict(D(M({'a': S(5, kw={'safe': False})})), doc={'raw': M({'a': S(5, kw={'safe': False})}), 'safe': False})),                  # D17f
-            D(M({'x': M({'a': M({'p': S(1)}, kw={'del': False})}, kw={'del': True})}), M({'x': M({'a': M({'q': S(2)})})})),                # D17g default under parent
-            D(M({'a': Stext("f'{b}'", 'fstr'), 'b': S(1)})),                                                                               # D17h
+            W(D(M({'x': M({'a': M({'p': S(1)}, kw={'del': False})}, kw={'del': True})}), M({'x': M({'a': M({'q': S(2)})})}))),             # D17g default under parent
+            D(M({'a': Stext("f'{b}'", 'fstr'), 'b': S(1)})),                                                                               # D17h (repaired: must pass)
+            D(M({'a': Stext("f'{b}'", 'fstr'), 'b': S(1)}, kw={'prio': 1})),                                                               # D17i: !fstr:<hex> has no constructor
+            W(D(M({'b': Q([S(5, kw={'del': True})], kw={'del': False})}, kw={'del': True, 'prio': 1}), M({'b': M({0: S(6)})}))),           # D17k  shortcut tag not on the stack
             D(M({'a': Q([S(1)], tag='append')}, kw={'prio': 1}), M({'a': Q([S(0)])})),                                                     # D17i
-            dict(D(M({'a': S(5)})), doc={'raw': M({'a': S(5, kw={'safe': True})}), 'safe': False}),                                       # D17j  !safe
+            dict(D(M({'a': S(5)})), doc={'raw': M({'a': S(5, kw={'safe': True})}), 'safe': False}),                                       # D17j  !safe (repaired: must pass)
+            dict(D(M({'a': S(5)})), doc={'raw': M({'a': M({'b': S(1), 'c': Q([S(2, kw={'safe': False})])}, kw={'safe': True})}), 'safe': False}),
             dict(D(M({'a': S(1)})), doc={'raw': M({'p': Q([S('d')], tag={'k': 'path', 'f': 'parent(1)'}), 'q': Q([S('e'), S('f.txt')], tag={'k': 'path', 'f': 'parent'}),
                                                     'r': Q([S('g')], tag={'k': 'path', 'f': 'file'}), 's': Q([], tag={'k': 'path', 'f': 'parent(2)'})}), 'src': '/cfg/sub/main.yaml'}),
         ]
 
     def clean(self, doc):
-        return not doc_traits(doc)
+        return not (doc_traits(doc) & set(KEY_OF_CLASS.values()))
 
     def gen_cases(self, rng, n, tier):
         out = []
@@ -177,7 +193,7 @@ class C18(Prop):
         while len(out) < n and tries < n * 40:
             tries += 1
             want_clean = len(out) < n_clean
-            doc = GF.gen_full_doc(rng, depth=3, p_tag=0.35, p_extra=0.2, allow_premerge=not want_clean, allow_include=False)
+            doc = GF.gen_full_doc(rng, depth=3, p_tag=0.35, p_extra=0.2, allow_premerge=True, allow_include=False)
             if rng.random() < 0.7:
                 doc.pop('src', None)
             if want_clean != self.clean(doc):
@@ -283,15 +299,9 @@ class C18(Prop):
             return 'parsed tree: ' + d
         if 'err' in m['dump']:
             cls = m['dump']['err']
-            if 'ClearNode' in io.get('dump_err', '') and 'clear' in doc_traits(case['doc']):
-                return None     # several defects in one document: the model reports the first in document order, the dump crashed on !clear
-            if cls == 'clearCrash':
-                return None if 'ClearNode' in io.get('dump_err', '') else f'model: dump raises (clear), implementation: {json.dumps({k: v for k, v in io.items() if k.endswith("err")})}'
-            if cls in ('noMetadataForm', 'safeTag'):
-                return None if 'reparse_err' in io else f'model: dump is not re-parseable ({cls}), implementation re-parsed it'
-            if cls == 'pathNoRef':
-                ok = ('reparse_err' in io) or (io.get('d2') is not None and io.get('d2') != io.get('d1'))
-                return None if ok else 'model: !path without reference point does not round-trip, implementation: it does'
+            if cls == 'noMetadataForm':
+                return None if 'reparse_err' in io else f'model: dump is not re-parseable ({cls}), implementation: {json.dumps({k: v for k, v in io.items() if k.endswith("err")}) or "re-parsed it"}'
+            return f'model: unknown dump error {cls}'
         if 'dump_err' in io:
             return 'implementation: dump raises ' + io['dump_err'] + ', model: it does not'
         if 'reparse_err' in io:
@@ -335,15 +345,15 @@ class C18(Prop):
         if 'reparse_err' in io:
             e = io['reparse_err']
             if "'!safe'" in e: cls = 'dump-safe-tag'
-            elif 'could not determine a constructor for the tag' in e and any(('!' + k + ':') in e for k in ('append', 'prev', 'import', 'include')): cls = 'dump-kind-without-metadata-form'
-            elif 'path' in e.lower() and ('path-noref' in tr): cls = 'dump-kind-without-metadata-form' if 'nomdform' in tr else 'dump-path-noref'
+            elif 'could not determine a constructor for the tag' in e and any(('!' + k + ':') in e for k in ('append', 'prev', 'import', 'include', 'fstr')): cls = 'dump-kind-without-metadata-form'
+            elif "'!path" in e: cls = 'dump-path-noref'
             elif 'escaped-string' in tr: cls = 'dump-multiline-eval'
             else: cls = 'reparse-error'
             return [(cls, 'the dumped text cannot be parsed: ' + e + ' | dump: ' + io['d1'][:200])]
         if 'dump2_err' in io:
             out.append(('dump-crash', 'dumping the re-parsed tree raises ' + io['dump2_err']))
         elif io['d1'] != io['d2']:
-            cls = 'dump-path-noref' if 'path-noref' in tr else 'dump-multiline-eval' if 'escaped-string' in tr else 'dump-not-fixpoint'
+            cls = 'dump-multiline-eval' if 'escaped-string' in tr else 'dump-not-fixpoint'
             out.append((cls, f"second dump differs: {io['d1'][:150]!r} vs {io['d2'][:150]!r}"))
         d = first_diff(eff(io['t']), eff(io['t2']))
         if d:
@@ -351,19 +361,18 @@ class C18(Prop):
         if io.get('unsafe_marks_lost'):
             out.append(('dump-safe-elided', f"explicit !unsafe marks are missing from the dump (loaded as a safe source the nodes at {io['unsafe_marks_lost'][:3]} are safe): {io['d1'][:150]!r}"))
         mv = io.get('moved')
-        if mv and mv[0] != mv[1] and len(mv[0]) == len(mv[1]) and 'path-noref' not in tr:
+        if mv and mv[0] != mv[1] and len(mv[0]) == len(mv[1]):
             out.append(('dump-path-location', f'the dump parsed from another location denotes other paths: {mv[0][:3]} vs {mv[1][:3]}'))
         for s in io.get('subs', []):
             a, b = no_addr(s['orig']), no_addr(s['dumped'])
             d = first_diff(a, b)
             if d:
                 fld = first_field(d)
-                if 'path-noref' in tr: cls = 'dump-path-noref'
-                elif 'escaped-string' in tr: cls = 'dump-multiline-eval'
-                elif 'fstr' in tr and fld == 'k': cls = 'dump-fstr-as-eval'
+                if 'escaped-string' in tr: cls = 'dump-multiline-eval'
                 elif fld in ('eSafe',) or (('safe-equals-source-default' in tr) and 'unsafe' in d): cls = 'dump-safe-elided'
                 elif 'explicit-default-delete' in tr and not any(c == 'dump-default-under-parent' for c, _ in out): cls = 'dump-explicit-default-delete'
                 elif 'default-flag' in tr: cls = 'dump-default-under-parent'
+                elif 'shortcut-stack' in tr: cls = 'dump-shortcut-tag-not-on-stack'
                 elif 'safe-equals-source-default' in tr: cls = 'dump-safe-elided'
                 else: cls = 'substitution-differs'
                 out.append((cls, f"substituting the dump at position {s['pos']} of the merge sequence changes the result: {d}"))
@@ -372,11 +381,11 @@ class C18(Prop):
 
     def classify_tree_diff(self, d, tr, a, b):
         fld = first_field(d)
-        if 'path-noref' in tr: return 'dump-path-noref'
-        if fld == 'k' and 'fstr' in tr: return 'dump-fstr-as-eval'
+        if fld == 'k' and a != b and '"fstr"' in json.dumps(a) and '"fstr"' not in json.dumps(b): return 'dump-fstr-as-eval'
         if fld == 'v' and 'escaped-string' in tr: return 'dump-multiline-eval'
         if fld == 'eSafe' and 'safe-equals-source-default' in tr: return 'dump-safe-elided'
         if fld in ('eDel', 'eNew', 'ePrio') and 'default-flag' in tr: return 'dump-default-under-parent'
+        if fld in ('eDel', 'eNew', 'eSafe') and 'shortcut-stack' in tr: return 'dump-shortcut-tag-not-on-stack'
         return 'reparsed-tree-differs'
 
     def split_failures(self, case, io):
